@@ -354,6 +354,14 @@ private:
               unifex::set_error(std::move(op.receiver_), (Error&&)error);
             }
           }
+
+          template(typename CPO)                       //
+              (requires is_receiver_query_cpo_v<CPO>)  //
+              friend auto tag_invoke(CPO cpo, const receiver_wrapper& r) noexcept(
+                  std::is_nothrow_invocable_v<CPO, const Receiver&>)
+                  -> std::invoke_result_t<CPO, const Receiver&> {
+            return std::move(cpo)(std::as_const(r.op_.receiver_));
+          }
         };
 
         stream& stream_;
